@@ -392,8 +392,17 @@ fn run_all(ctx: &mut Ctx) {
     let mut cache: Option<(String, cairo_lang_sierra::program::Program)> = None;
     let divrem_cases: std::collections::HashMap<String, crate::divrem::Case> = crate::divrem::cases(false).into_iter().map(|c| (c.name.clone(), c)).collect();
     let divrem_vec = tier.pick(12, 60);
+    // the hint-carrying bounded-integer instantiations (downcast in every relative position of the ranges,
+    // constrain) on their own boundary inputs
+    let bounded: std::collections::HashMap<String, Vec<Vec<num_bigint::BigInt>>> = crate::bounded::hinted_programs(tier, tier.pick(2, 1), tier.pick(10, 40))
+        .into_iter()
+        .map(|(n, c, i)| {
+            progs.push((n.clone(), c));
+            (n, i)
+        })
+        .collect();
     for (name, code) in &progs {
-      let nvec = if divrem_cases.contains_key(name) { max_vec + divrem_vec } else { max_vec };
+      let nvec = if divrem_cases.contains_key(name) { max_vec + divrem_vec } else if let Some(i) = bounded.get(name) { i.len() } else { max_vec };
       for vi in 0..nvec {
         ctx.case(
             || json!({"space":"programs","program":name,"input_vector_index":vi}),
@@ -435,6 +444,9 @@ fn run_all(ctx: &mut Ctx) {
                     let Some(mut inputs) = input_vectors(&prog, f, true, 3, max_vec) else { continue };
                     // the division lattice also runs at the operand pairs where the relation the generated code
                     // verifies (min(q, b) < ceil(sqrt(max)), q below its bound) changes
+                    if let Some(bi) = bounded.get(name) {
+                        inputs = bi.iter().map(|v| v.iter().map(|x| Arg::Value(crate::c06::to_felt(x))).collect()).collect();
+                    }
                     if let Some(dc) = divrem_cases.get(name) {
                         inputs.truncate(max_vec);
                         inputs.extend(crate::divrem::relation_inputs_small(dc, divrem_vec).into_iter().map(|(a, b)| vec![Arg::Value(Felt::from(&a)), Arg::Value(Felt::from(&b))]));
